@@ -4,6 +4,7 @@ import (
 	"fmt"
 	"go/token"
 	"go/types"
+	"sort"
 	"strings"
 
 	"golang.org/x/tools/go/callgraph"
@@ -866,6 +867,10 @@ func comparedCounter(w *World, v ssa.Value, depth int) *types.Var {
 		var counter *types.Var
 		for _, side := range []ssa.Value{b.X, b.Y} {
 			if f := counterRead(w, side, 2); f != nil {
+				// (a field of a parameter bundle is an input, not the counter: `s.session.Load() != req.session`)
+				if o := w.Origin(side); strings.HasPrefix(o, "param(") {
+					continue
+				}
 				counter = f
 			}
 		}
@@ -1049,6 +1054,28 @@ func sessionAdvancedFirst(c *Ctx, id string) {
 			c.Fail(id, construct, adv[0].Pos(), "the session counter is not advanced before the closing step(s) at %s: a re-open attempt admitted in between opens a stream behind the close or fails on the emptied position map", strings.Join(late, ", "))
 		}
 	}
+	// … and by nothing but the close: a session ends when the stream is closed. An advance anywhere else (at the end of
+	// Open, say) ends the session of every re-open that is waiting for its retry, although the stream is up.
+	closeUnit := map[*ssa.Function]bool{}
+	for _, fn := range impls {
+		closeUnit[fn] = true
+		for f := range w.syncCallees(fn, 3, true) {
+			closeUnit[f] = true
+		}
+	}
+	var stray []string
+	for _, fn := range w.ModFuncs {
+		allInstrs(fn, func(in ssa.Instruction) {
+			if advances(in) && !closeUnit[rootFn(fn)] {
+				if st, isSt := in.(*ssa.Store); isSt && rootAlloc(st.Addr) != nil {
+					return // the zero value of a literal being built
+				}
+				stray = append(stray, fname(fn)+" @"+w.pos(in.Pos()))
+			}
+		})
+	}
+	sort.Strings(stray)
+	c.Check(len(stray) == 0, id, "session-advanced-by-close-only", 0, "the session counter is advanced by the close and by nothing else", "the session counter is also advanced outside the close: "+strings.Join(stray, ", ")+" — a re-open waiting for its retry gives up although the stream is up, and the vBucket is never streamed again")
 }
 
 // fieldDeep: the (last) field of st, or of a struct embedded in it by value, that satisfies p.
